@@ -85,6 +85,25 @@ def run(chk):
                 f["coordinates"] = [[-c[0], c[1]] for c in f["coordinates"]]
                 f["dip point"] = [-f["dip point"][0], f["dip point"][1]]
             f.pop("sections", None)
+        polar = sph and (not dateline) and wi % 3 == 1
+        if polar:
+            # a long, shallow slab hanging from a meridional trench at high latitude: near its tip at the high-latitude end
+            # a given horizontal reach spans many more degrees of longitude than at the low-latitude end of the trench
+            # (the longitude buffer of the bounding box has to allow for that)
+            sgn_lat = rng.choice([-1, 1])
+            lat0 = rng.uniform(45, 60)
+            lat1 = lat0 + rng.uniform(8, 14)
+            lon0 = rng.uniform(-140, 140)
+            f["coordinates"] = [[round(lon0, 1), round(sgn_lat * lat0, 1)], [round(lon0 + rng.uniform(-0.3, 0.3), 1), round(sgn_lat * lat1, 1)]]
+            side = rng.choice([-1, 1])
+            f["dip point"] = [round(lon0 + side * 35, 1), round(sgn_lat * (lat0 + lat1) / 2, 1)]
+            f.pop("sections", None)
+            f.pop("max depth", None)
+            f["segments"] = [{"length": float(round(rng.uniform(6e5, 1.0e6))), "thickness": [float(round(rng.uniform(3e4, 6e4)))],
+                              "angle": [float(round(rng.uniform(6, 14), 1))]}]
+            f["composition models"] = [{"model": "uniform", "compositions": [0]}]
+            for k in ("temperature models", "grains models", "velocity models"):
+                f.pop(k, None)
         bulge = (not sph) and wi % 5 == 0
         if bulge:
             # a strongly curved trench: the Bezier curve leaves the bounding box of its coordinates; thin, short, shallow slab
@@ -110,6 +129,21 @@ def run(chk):
             curve = [allpts[rng.randrange(25)] for _ in range(40)]      # near the apex of the bulge
         for qi in range(40):
             pos, d = line_query(rng, wj, sph, f)
+            if polar and qi % 4 != 0:
+                import math
+                from qgen import cart_point, TOP
+                sg = f["segments"][0]
+                th = math.radians(sg["angle"][0])
+                radius = wj.get("coordinate system", {}).get("radius", 6371000.0)
+                c1 = f["coordinates"][1]
+                lat = c1[1] - math.copysign(rng.uniform(0.05, 2.5), c1[1])
+                al = rng.uniform(0.6, 1.0) * sg["length"]
+                reach = al * math.cos(th)
+                side = 1.0 if f["dip point"][0] > c1[0] else -1.0
+                lon = c1[0] + side * math.degrees(reach / (radius * math.cos(math.radians(lat))))
+                d = float(round(max(0.0, f.get("min depth", 0.0) + al * math.sin(th) + rng.uniform(-0.5, 2.5) * sg["thickness"][0]
+                                    + rng.choice([0.0, 1.0]) * reach * reach / (2 * radius))))
+                pos = cart_point(True, lon, lat, d, radius, TOP)
             if above and qi % 2 == 0:
                 import math
                 sg = f["segments"][0]
